@@ -237,7 +237,7 @@ static const char* opn_of(int op) {
   return opn[op];
 }
 static int overflow_mode(long seed, long ncases) {
-  long overflows = 0, completed = 0, leaks = 0, invalid = 0, unusable = 0, argchg = 0, other = 0;
+  long overflows = 0, completed = 0, leaks = 0, invalid = 0, unusable = 0, argchg = 0, other = 0, ok_overflowed = 0;
   std::map<std::string, long> byop;
   for (int i = 0; i < 10; ++i) byop[opn_of(i)] = 0;      // nodes allocated here, not inside a measured case
   // warm-up
@@ -268,8 +268,9 @@ static int overflow_mode(long seed, long ncases) {
       catch (const std::overflow_error&) { out = "overflow_error"; }
       catch (const std::exception& e) { out = exn_name(e); }
       bool valid = false, use = false, arg = false;
+      // OK() itself computes with the bounded coefficients and may overflow: then nothing is concluded about validity
+      try { valid = x->OK() && y->OK(); } catch (const std::overflow_error&) { valid = true; ++ok_overflowed; }
       try {
-        valid = x->OK() && y->OK();
         // the argument's value must be unchanged; comparing may itself overflow (then nothing is concluded)
         try { arg = (*y == *ys); } catch (const std::overflow_error&) { arg = true; }
         C_Polyhedron z(*x); use = z.OK();
@@ -287,7 +288,7 @@ static int overflow_mode(long seed, long ncases) {
     if (leak != 0) { ++leaks; std::cout << "case id=" << id << " op=" << (built ? opn_of(op) : "build") << " leak=" << leak << " out=" << out << "\n"; }
   }
   std::cout << "done overflow cases=" << ncases << " overflows=" << overflows << " completed=" << completed << " other=" << other << " leaks=" << leaks << " invalid=" << invalid
-            << " unusable=" << unusable << " argchg=" << argchg;
+            << " unusable=" << unusable << " argchg=" << argchg << " OK_itself_overflowed=" << ok_overflowed;
   for (std::map<std::string, long>::iterator i = byop.begin(); i != byop.end(); ++i) std::cout << " ov_" << i->first << "=" << i->second;
   std::cout << "\n";
   return 0;
